@@ -84,8 +84,8 @@ type worldCfg struct {
 	Cpc         bool // deploy custom precompiles
 	MaxGasSmall bool // allow small block gas limits
 	OnlyEvmCoin bool
-	PoolEOAFrom int // first EOA key index that may appear as an address operand (senders below it stay out of the pool)
-	Senders     int // number of sender keys (default nEOA)
+	PoolEOAFrom int  // first EOA key index that may appear as an address operand (senders below it stay out of the pool)
+	Senders     int  // number of sender keys (default nEOA)
 	ModAddrs    bool // module accounts (x/evm's own, the fee collector) appear as tx recipients and address operands
 }
 
